@@ -9,6 +9,8 @@ class Ctx:
     def __init__(s, repo):
         s.repo = repo
         s.model = Model(repo)
+        from . import pat as _pat
+        _pat.MODEL = s.model
         s.sx = Sym(s.model, assume={'_WITH_PYDUB': False, '_WITH_TQDM': False})
         s._leaves = {}
         s._fields = {}
@@ -375,3 +377,53 @@ def self_field_exprs(cx, mod, clsname):
     out = {f: next(iter(vs)) for f, vs in cand.items() if len(vs) == 1 and next(iter(vs))[0] not in ('p', 'c')}
     cx._fields[key] = out
     return out
+
+
+def opaque_helper_calls(cx, t):
+    """calls, inside a term, of repository functions / methods of self that the rules do not know by name and that the evaluator
+    could not inline (several paths inside an expression it cannot hoist, a generator, ...): a rule that fails on such a term did
+    not see the value and must answer INCONCLUSIVE"""
+    from .known_names import KNOWN
+    out = []
+    for x in walk(t):
+        if x[0] == 'call':
+            f = x[1]
+            if f[0] == 'g' and f[1] in cx.model.mods and '%s.%s' % (f[1], f[2]) not in KNOWN and cx.model.lookup(f) and cx.model.lookup(f)[0] == 'func':
+                out.append(x)
+            elif f[0] == 'attr' and f[1] == ('self',) and f[2].startswith('_') and not any(k.endswith('.' + f[2]) for k in KNOWN):
+                out.append(x)
+        elif x[0] == 'localfunc':
+            out.append(x)
+    return out
+
+
+def tuple_fields(cx, g):
+    """field names, in order, of a typing.NamedTuple subclass / collections.namedtuple defined in the repository (None otherwise)"""
+    import ast as _ast
+    lk = cx.model.lookup(g) if g and g[0] == 'g' else None
+    if lk and lk[0] == 'class' and any((isinstance(b, _ast.Name) and b.id == 'NamedTuple') or (isinstance(b, _ast.Attribute) and b.attr == 'NamedTuple') for b in lk[1].bases):
+        return [n.target.id for n in lk[1].body if isinstance(n, _ast.AnnAssign) and isinstance(n.target, _ast.Name)]
+    if lk and lk[0] == 'const' and isinstance(lk[1], _ast.Call) and _ast.unparse(lk[1].func).endswith('namedtuple') and len(lk[1].args) == 2:
+        try:
+            spec = _ast.literal_eval(lk[1].args[1])
+            return spec.replace(',', ' ').split() if isinstance(spec, str) else list(spec)
+        except (ValueError, SyntaxError):
+            return None
+    return None
+
+
+def tuple_components(cx, v):
+    """component terms of a value that is a tuple: a tuple literal, or the construction of a typing.NamedTuple subclass /
+    collections.namedtuple defined in the repository (fields in declaration order)"""
+    if v is None:
+        return None
+    if v[0] == 'tuple':
+        return list(v[1])
+    if v[0] == 'call' and v[1][0] == 'g':
+        fields = tuple_fields(cx, v[1])
+        if fields:
+            byname = dict(zip(fields, v[2]))
+            byname.update({k: x for k, x in v[3] if k in fields})
+            if len(byname) == len(fields):
+                return [byname[f] for f in fields]
+    return None
